@@ -17,7 +17,7 @@ if [ $# -gt 0 ]; then
   (cd "$WT" && PYTHONPATH="$WT" timeout 2400 /venv/bin/python -m pytest -q -p no:cacheprovider --timeout=900 "$@" > "$OUT/tests.log" 2>&1); T=$?
 fi
 cd /verif
-VERIF_REPO="$WT" timeout 2400 ./check "$PID" --tier quick > "$OUT/check_quick.log" 2>&1; C=$?
+VERIF_EVIDENCE_DIR="$OUT/evidence" VERIF_REPLAYS_DIR="$OUT/replays" VERIF_REPO="$WT" timeout 2400 ./check "$PID" --tier quick > "$OUT/check_quick.log" 2>&1; C=$?
 echo "demo_with_change_rc=$D1 demo_on_repo_rc=$D0 related_tests_rc=$T check_rc=$C"
 grep -m3 "^VIOLATION" "$OUT/check_quick.log"
 tail -n 1 "$OUT/check_quick.log"
